@@ -36,9 +36,8 @@ Lemma conn_write_spec : forall split bound maxb pkt b,
   exists frs pkt', conn_write split bound pkt b = Ok (frs, pkt') /\ concat frs = b /\ frags_ok maxb frs.
 Proof.
   intros split bound maxb pkt b Hb. unfold conn_write.
-  destruct (split && Nat.ltb 1 (length b))%bool eqn:Es.
-  - apply andb_prop in Es. destruct Es as (_ & Hl). apply Nat.ltb_lt in Hl.
-    destruct (writeRecordLocked_spec (length b) bound maxb pkt (firstn 1 b) Hb) as (f1 & p1 & E1 & C1 & O1).
+  destruct (split (length b)) eqn:Es.
+  - destruct (writeRecordLocked_spec (length b) bound maxb pkt (firstn 1 b) Hb) as (f1 & p1 & E1 & C1 & O1).
     { rewrite firstn_length. lia. }
     destruct (writeRecordLocked_spec (length b) bound maxb p1 (skipn 1 b) Hb) as (f2 & p2 & E2 & C2 & O2).
     { rewrite skipn_length. lia. }
